@@ -416,7 +416,7 @@ func TestForward(t *testing.T) {
 	}
 	if rec.Thorough() {
 		rng := rand.New(rand.NewSource(rec.Seed()))
-		for k := 0; k < 20000; k++ {
+		for k := 0; k < 150000; k++ {
 			n := 1 + rng.Intn(12)
 			b := make([]byte, n)
 			for i := range b {
